@@ -231,7 +231,14 @@ static void do_visit_abandoned(const Op& op) {
     }
   }
   for (size_t i = 0; i < v.size(); i++) if (hits[i] != 1) sim_violation(hits[i] ? "visit_two_blocks" : "visit_freed", "mi_abandoned_visit_blocks: range [%p,+%zu) holds %d live blocks", (void*)v[i].start, v[i].size, hits[i]);
-  for (auto& a : r.areas) if (a.used != a.seen) sim_violation("visit_used", "mi_abandoned_visit_blocks: area at %p reports used=%zu but %zu blocks were visited", (void*)a.blocks, a.used, a.seen);
+  // the statement assumes no pending cross-thread frees: a block of a terminated thread that another thread freed may still sit in the
+  // abandoned page's thread-free list (it is counted in the area's `used`, which is taken before the walk collects it)
+  { size_t slack = H.orphan_frees;
+    for (auto& a : r.areas) {
+      if (a.used == a.seen) continue;
+      if (a.used > a.seen && a.used - a.seen <= slack) { slack -= a.used - a.seen; continue; }
+      sim_violation("visit_used", "mi_abandoned_visit_blocks: area at %p reports used=%zu but %zu blocks were visited", (void*)a.blocks, a.used, a.seen);
+    } }
   if (r.callbacks > 1) { VisitRec r3; r3.stop_after = (long)(op.a % (uint64_t)r.callbacks); mi_abandoned_visit_blocks(mi_subproc_main(), -1, true, &visitor_fn, &r3);
     if (r3.callbacks != r3.stop_after + 1) sim_violation("visit_stop", "mi_abandoned_visit_blocks: visitor returned false at callback %ld but received %ld callbacks", r3.stop_after + 1, r3.callbacks); }
   probe(PR_visit_checked);
